@@ -157,6 +157,11 @@ var xgoPkgs = []Pkg{
 		"bar.go":   "package main\n\nfunc Bar() {}\n\ntype U struct{}\n",
 		"main.xgo": "func Foo() {}\n\ntype T int\n\ntype U int\n\nfunc Bar() {}\n",
 	}},
+	{"err-mixed-go-undefined-types", map[string]string{
+		"foo.go":   "package main\n\ntype A struct{ x Undef1 }\n\ntype B struct{ y Undef2 }\n\ntype C = Undef5\n\nfunc F__0(a Undef3) {}\n\nfunc F__1(b Undef4) {}\n\nfunc (a *A) M__0(v Undef6) {}\n\nfunc (a *A) M__1(v Undef7) {}\n",
+		"bar.go":   "package main\n\ntype D struct{ z Undef8 }\n\nfunc G__0(a Undef9) {}\n\nfunc G__1(b int) {}\n",
+		"main.xgo": "var a A\nvar d D\necho a, d\nf 1\ng 2\n",
+	}},
 	{"err-type-errors", map[string]string{
 		"a.xgo": "func fa() {\n\tvar s string = 1\n\tvar i int = \"a\"\n\t_, _ = s, i\n}\n",
 		"b.xgo": "func fb() {\n\tx := 1 + \"a\"\n\ty := f(1, 2, 3)\n\t_, _ = x, y\n}\n\nfunc f(a int) int { return a }\n",
